@@ -103,6 +103,67 @@ def set_history_cases(rng, _n):
     return cases
 
 
+def map_wild_cases(rng, _n):
+    """Map patterns whose value pattern is the wildcard: `"k": _` still requires the key."""
+    import tgen
+    cases = []
+    k = 0
+    maps = [[], [("k", 1)], [("j", 1)], [("k", 1), ("j", 2)], [("a", 5), ("j", 2)]]
+    pats = ['#{ "k": _, .. }', '#{ "k": _ }', '#{ "j": 2, "k": _, .. }', '#{ "k": _, "j": _, .. }', '#{ "k": _, "j": 2 }', '#{ "k": 1, .. }']
+    for pat in pats:
+        for m in maps:
+            c = t3.Case()
+            c.id = k
+            k += 1
+            c.forms = {"map-wildcard-value": 1}
+            c.perturbed = True
+            c.meanings = "(meanings (v %s (str %s)) (v %s (str %s)) (v %s (int 1)) (v %s (int 2)))" % (
+                tgen.hexs('"k"'), tgen.hexs("k"), tgen.hexs('"j"'), tgen.hexs("j"), tgen.hexs("1"), tgen.hexs("2"))
+            val = "BTreeMap::<String, i32>::from([%s])" % ", ".join('("%s".to_string(), %d)' % kv for kv in m)
+            sx = "(map (keys %s) (vals %s))" % (" ".join("(str %s)" % tgen.hexs(a) for a, _ in m), " ".join("(int %d)" % b for _, b in m))
+            t3.finish_case(c, "", "BTreeMap<String, i32>", val, sx, pat)
+            cases.append(c)
+    return cases
+
+
+def wildcard_shadow_cases(rng, _n):
+    """A wildcard struct nested in a named struct (or variant) that has a field of the same name written after it,
+    and other sibling arrangements: each field assertion is about its own struct's field."""
+    import tgen
+    cases = []
+    k = 0
+    decl = ("#[derive(Debug)] pub struct In { pub id: i32, pub tag: i32 }\n#[derive(Debug)] pub struct Out { pub inner: In, pub id: i32, pub tag: i32 }\n"
+            "#[derive(Debug)] pub enum Ev { V { inner: In, id: i32 } }")
+    adt = lambda ctor, names, vals: "(adt %s (names %s) (vals %s))" % (tgen.hexs(ctor), " ".join(tgen.hexs(n) for n in names), " ".join(vals))
+    pats = ["Out { inner: _ { id: %d, .. }, id: %d, .. }", "Out { id: %d, inner: _ { id: %d, .. }, .. }", "Out { inner: _ { id: > %d, .. }, id: > %d, tag: 0, .. }",
+            "Out { inner: _ { tag: %d, id: %d, .. }, .. }", "Out { inner: _ { id: %d, .. }, inner.id: %d, .. }"]
+    for (iid, oid) in ((1, 7), (7, 1), (3, 3)):
+        val = "Out { inner: In { id: %d, tag: 0 }, id: %d, tag: 0 }" % (iid, oid)
+        sx = adt("Out", ["inner", "id", "tag"], [adt("In", ["id", "tag"], ["(int %d)" % iid, "(int 0)"]), "(int %d)" % oid, "(int 0)"])
+        for pt in pats:
+            for (a, b) in ((1, 7), (7, 1), (1, 1), (7, 7), (3, 3), (0, 5)):
+                c = t3.Case()
+                c.id = k
+                k += 1
+                c.forms = {"wildcard-struct-sibling": 1}
+                c.perturbed = True
+                c.meanings = "(meanings %s)" % " ".join("(v %s (int %d))" % (tgen.hexs(str(x)), x) for x in (0, 1, 3, 5, 7))
+                t3.finish_case(c, decl, "Out", val, sx, pt % (a, b))
+                cases.append(c)
+        vval = "Ev::V { inner: In { id: %d, tag: 0 }, id: %d }" % (iid, oid)
+        vsx = adt("V", ["inner", "id"], [adt("In", ["id", "tag"], ["(int %d)" % iid, "(int 0)"]), "(int %d)" % oid])
+        for (a, b) in ((1, 7), (7, 1), (3, 3), (1, 1)):
+            c = t3.Case()
+            c.id = k
+            k += 1
+            c.forms = {"wildcard-struct-sibling": 1}
+            c.perturbed = True
+            c.meanings = "(meanings %s)" % " ".join("(v %s (int %d))" % (tgen.hexs(str(x)), x) for x in (0, 1, 3, 5, 7))
+            t3.finish_case(c, decl, "Ev", vval, vsx, "Ev::V { inner: _ { id: %d, .. }, id: %d }" % (a, b))
+            cases.append(c)
+    return cases
+
+
 def check(ck, aspect, theorems, t2_parts=("body", "status", "validity")):
     ck.prove(theorems)
     ck.build_harness("inproc")
@@ -153,7 +214,9 @@ def check(ck, aspect, theorems, t2_parts=("body", "status", "validity")):
         ck.corr_record("T3 path-valued patterns (identifier, zero-argument call, constant as a field's value pattern)", len(bp), len(bp), len(mism), dict(stats),
                        samples=[dict(invocation="assert_struct!(%s)" % c.text, setup=getattr(c, "setup", ""), impl=c.got[0], spec=str(c.expect)[:120]) for c in bp[:2]], rule="4 fixed programs")
     for (name, maker, what) in (("range-in-slice", range_in_slice_cases, "range-shaped slice elements next to the rest marker"),
-                                ("set-history", set_history_cases, "matching set assertions after earlier set assertions on the same thread")):
+                                ("set-history", set_history_cases, "matching set assertions after earlier set assertions on the same thread"),
+                                ("map-wildcard-value", map_wild_cases, "map entries whose value pattern is `_`: the key is still required"),
+                                ("wildcard-struct-sibling", wildcard_shadow_cases, "a wildcard struct next to a sibling field of the same name")):
         fam = t3.run_corpus(ck, name, 0, per_bin=40, positions=maker)
         stats, mism = t3.compare(ck, fam, name)
         for m in mism:
